@@ -7,6 +7,17 @@ def m(mid, file, old, new, expect, props=None, nth=None):
     M.append({"id": mid, "file": file, "old": old, "new": new, "expect": expect, "props": props, "nth": nth})
 
 
+def revert(mid, commit, expect):
+    """Mutant = the tree with one 'fix:' commit of /repo reverted (the original defect)."""
+    M.append({"id": mid, "revert": commit, "expect": expect, "props": None, "file": None, "old": None, "new": None, "nth": None})
+
+
+# ---- the repaired defects must be reported again if they come back
+revert("f1-migrate-polarity", "dc24079", "C13.R3")
+revert("f4-basic-wait-break", "4b9324e", "C01.R7")
+revert("f6-stale-pool-counter", "cef111f", "C06.R3")
+revert("f8-suspend-to-running", "f4622e6", "C02.R5")
+
 # ---- C07
 m("c07-push-unlocked", "src/pool/fifo.c",
   """    ABTD_spinlock_acquire(&p_data->mutex);
